@@ -102,6 +102,12 @@ type dirSpec struct {
 	NSteps    int     `json:"n_steps"`
 	ReadBuf   int     `json:"read_buf"`        // 0: PRNG size per Read
 	DelayUS   int     `json:"reader_delay_us"` // reader starts late
+	// SetReadBuffer, when not nil, is passed to Conn.SetReadBuffer on the
+	// receiving Conn of this direction before anything is written (0 and
+	// negative: unlimited; otherwise larger than everything that will be
+	// sent); the reader then starts only after the writer has finished, so the
+	// writer is as far ahead as it can get.
+	SetReadBuffer *int `json:"set_read_buffer,omitempty"`
 }
 
 type streamSpec struct {
@@ -113,7 +119,10 @@ type streamSpec struct {
 	Dir     [2]dirSpec `json:"dir"` // 0: opener→acceptor, 1: acceptor→opener
 	StartUS int        `json:"start_delay_us,omitempty"`
 	ReClose bool       `json:"other_side_closes_after_eof,omitempty"`
-	Abort   bool       `json:"closer_does_not_wait_for_peer,omitempty"`
+	// NoFinalFlush: the side that does not close leaves what it wrote last in
+	// its write buffer; the peer's close finds it there.
+	NoFinalFlush bool `json:"passive_side_does_not_flush,omitempty"`
+	Abort        bool `json:"closer_does_not_wait_for_peer,omitempty"`
 }
 
 type transferCase struct {
@@ -156,8 +165,9 @@ func genLen(r *rand.Rand, block, maxLen int) (int, string) {
 	for _, k := range []int{1, 2, 3} {
 		cs = append(cs, cand{768 * k, "enc768"}, cand{1024 * k, "enc1024"})
 	}
-	if r.Intn(8) == 0 {
-		return r.Intn(3), "tiny"
+	if r.Intn(6) == 0 {
+		// a handful of bytes: the base64 encoder keeps 1 or 2 of them until close
+		return []int{0, 1, 2, 4, 5, 7, 8}[r.Intn(7)], "tiny"
 	}
 	if r.Intn(6) == 0 {
 		n := r.Intn(maxLen + 1)
@@ -288,7 +298,29 @@ func genStream(r *rand.Rand, tier string, k int) streamSpec {
 	case 0: // one direction only
 		sp.Dir[r.Intn(2)] = dirSpec{LenClass: "none", Part: "none"}
 	}
-	sp.ReClose = r.Intn(3) == 0
+	sp.ReClose = r.Intn(2) == 0
+	sp.NoFinalFlush = r.Intn(4) == 0
+	for d := 0; d < 2; d++ {
+		if sp.Dir[d].Len == 0 || r.Intn(3) != 0 {
+			continue
+		}
+		v := []int{0, -1, -4096, 0}[r.Intn(4)]
+		class := "unlimited"
+		if r.Intn(3) == 0 {
+			v = sp.Dir[d].Len + 2*effBlock(sp.Block) + 1024
+			class = "ample"
+		} else if tier == "thorough" && effBlock(sp.Block) >= 2048 && r.Intn(4) == 0 {
+			// more than the default limit of 256 KiB: unlimited means unlimited
+			sp.Dir[d].Len = ibb.MaxBufferSize + 4096 + r.Intn(5000)
+			sp.Dir[d].LenClass = "beyond-default-buffer"
+			sp.Dir[d].Part = "random"
+			sp.Dir[d].Steps = genSteps(r, sp.Dir[d].Len, 4096, "random")
+			sp.Dir[d].NSteps = len(sp.Dir[d].Steps)
+			sp.Dir[d].StepsHead = sp.Dir[d].Steps[:min(24, len(sp.Dir[d].Steps))]
+		}
+		sp.Dir[d].SetReadBuffer = &v
+		sp.Dir[d].LenClass += "+rb-" + class
+	}
 	// sometimes the closing side closes as soon as it has written its own data,
 	// while the other side may still be writing
 	sp.Abort = r.Intn(8) == 0
@@ -373,9 +405,18 @@ func (rd *reader) count() int {
 }
 
 func startReader(conn io.Reader, bufSize, delayUS int, seed int64) *reader {
+	return startReaderAfter(nil, conn, bufSize, delayUS, seed)
+}
+
+// startReaderAfter is startReader with a gate: the first Read happens only
+// once gate is closed.
+func startReaderAfter(gate <-chan struct{}, conn io.Reader, bufSize, delayUS int, seed int64) *reader {
 	rd := &reader{done: make(chan struct{}), prog: make(chan struct{}, 1)}
 	go func() {
 		defer close(rd.done)
+		if gate != nil {
+			<-gate
+		}
 		if delayUS > 0 {
 			time.Sleep(time.Duration(delayUS) * time.Microsecond)
 		}
@@ -531,6 +572,22 @@ func sessionDied(c *core.Case, p *libPair, k int, sp *streamSpec, doing string) 
 	c.Count("sessions_ended_mid_transfer", 1)
 }
 
+// findWedged applies the stall rule to two shapes that nothing can resolve: a
+// library goroutine parked on a mutex, and the serve loop parked inside the
+// IBB handler (it can only be waiting for something the serve loop itself
+// would have to read or release).  Goroutines parked before the case began
+// are ignored.
+func findWedged(base map[string]stall.Parked) *stall.Parked {
+	for _, pk := range stall.Check(func(string) bool { return true }, 0) {
+		inHandler := strings.Contains(pk.Stack, "mellium.im/xmpp.handleInputStream(") && strings.Contains(pk.Stack, "mellium.im/xmpp/ibb.")
+		if _, old := base[pk.ID]; !old && (strings.Contains(pk.State, "Mutex") || inHandler) {
+			pk := pk
+			return &pk
+		}
+	}
+	return nil
+}
+
 // runStream drives one bytestream between the two ends and judges it.
 func runStream(c *core.Case, tc *transferCase, k int, p *libPair, disp map[string]*dispatcher, base map[string]stall.Parked) {
 	sp := &tc.Streams[k]
@@ -550,12 +607,11 @@ func runStream(c *core.Case, tc *transferCase, k int, p *libPair, disp map[strin
 	// wedged: is a library goroutine (the serve loop, say) parked on a lock
 	// that nobody will release?
 	wedged := func(what string) bool {
-		for _, pk := range stall.Check(func(string) bool { return true }, 0) {
-			if _, old := base[pk.ID]; !old && strings.Contains(pk.State, "Mutex") {
-				c.Violate(stall.Key(pk), "stream %d (%s, block %d, closer=%s, abort=%v): %s, and a library goroutine is parked on a lock nobody will release:\n%s", k, sp.Carrier, sp.Block, sp.Closer, sp.Abort, what, pk.Stack)
-				c.Count("wedged_on_lock", 1)
-				return true
-			}
+		if pk := findWedged(base); pk != nil {
+			c.Violate(stall.Key(*pk), "stream %d (%s, block %d, closer=%s, abort=%v, %d/%d bytes): %s, and a library goroutine is parked on something nobody will provide (a lock that is never released, or the serve loop waiting inside the IBB handler for an answer only the serve loop could read):\n%s",
+				k, sp.Carrier, sp.Block, sp.Closer, sp.Abort, sp.Dir[0].Len, sp.Dir[1].Len, what, pk.Stack)
+			c.Count("wedged_library_goroutines", 1)
+			return true
 		}
 		return false
 	}
@@ -612,19 +668,30 @@ func runStream(c *core.Case, tc *transferCase, k int, p *libPair, disp map[strin
 
 	// role r reads what role 1-r writes
 	var rds [2]*reader
-	for r := 0; r < 2; r++ {
-		rds[r] = startReader(conns[r], sp.Dir[1-r].ReadBuf, sp.Dir[1-r].DelayUS, tc.PayloadSeed+int64(r))
-	}
 	var werr [2]error
 	var wdone [2]chan struct{}
 	for r := 0; r < 2; r++ {
-		r := r
 		wdone[r] = make(chan struct{})
+	}
+	for r := 0; r < 2; r++ {
+		var gate <-chan struct{}
+		if rb := sp.Dir[1-r].SetReadBuffer; rb != nil {
+			conns[r].SetReadBuffer(*rb)
+			gate = wdone[1-r]
+			c.Count("set_read_buffer_streams", 1)
+			if *rb <= 0 {
+				c.Count("set_read_buffer_unlimited", 1)
+			}
+		}
+		rds[r] = startReaderAfter(gate, conns[r], sp.Dir[1-r].ReadBuf, sp.Dir[1-r].DelayUS, tc.PayloadSeed+int64(r))
+	}
+	for r := 0; r < 2; r++ {
+		r := r
 		go func() {
 			defer close(wdone[r])
 			c.Guard("ibb.Conn.Write", func() {
 				werr[r] = writeAll(conns[r], data[r], sp.Dir[r].Steps)
-				if werr[r] == nil && r == other {
+				if werr[r] == nil && r == other && !sp.NoFinalFlush {
 					// the side that will not call Close hands its buffered bytes over
 					if err := conns[r].Flush(); err != nil {
 						werr[r] = fmt.Errorf("final Flush: %v", err)
@@ -676,6 +743,13 @@ func runStream(c *core.Case, tc *transferCase, k int, p *libPair, disp map[strin
 		// everything the other side's encoder has emitted (all complete 3-byte
 		// groups; the last 0-2 bytes legitimately wait for that side's close).
 		need := len(data[other]) - len(data[other])%3
+		if sp.NoFinalFlush {
+			need = 0 // how much left the write buffer is its business
+			c.Count("passive_side_unflushed_at_close", 1)
+		}
+		if len(data[other])%3 != 0 {
+			c.Count("passive_side_holds_base64_remainder_at_close", 1)
+		}
 		if sp.Carrier == "message" && !rds[closer].waitCount(need, 0) {
 			// Message-carried packets are not acknowledged.  An IQ sent after them
 			// on the same stream is answered only after they were all handled
@@ -934,6 +1008,49 @@ func execTransfer(c *core.Case, tc *transferCase) {
 	wg.Wait()
 	if len(tc.Streams) > 1 {
 		c.Count("concurrent_stream_cases", 1)
+	}
+
+	// Both serve loops must still be alive: each end pings the other.
+	for _, pr := range [][2]*end{{p.A, p.B}, {p.B, p.A}} {
+		if c.Violated() {
+			break // already refuted; a wedged end would only cost time
+		}
+		from, to := pr[0], pr[1]
+		var perr error
+		for _, limit := range []time.Duration{3 * grace, hardLimit} {
+			pctx, pcancel := context.WithTimeout(context.Background(), limit)
+			perr = from.s.UnmarshalIQElement(pctx, xmlstream.Wrap(nil, xml.StartElement{Name: xml.Name{Space: "urn:xmpp:ping", Local: "ping"}}),
+				stanza.IQ{Type: stanza.GetIQ, To: to.s.LocalAddr()}, nil)
+			pcancel()
+			if !errors.Is(perr, context.DeadlineExceeded) {
+				break
+			}
+			select {
+			case <-p.dead:
+			default:
+				if pk := findWedged(base); pk != nil {
+					if !c.Violated() {
+						c.Violate(stall.Key(*pk), "after the streams were closed end %s no longer answers a ping from end %s; a library goroutine is parked for good:\n%s", to.name, from.name, pk.Stack)
+					}
+					perr = nil
+				}
+			}
+			if perr == nil {
+				break
+			}
+		}
+		select {
+		case <-p.dead:
+			if !c.Violated() {
+				c.Violate("ibb:session-ended:after-transfer", "a serve loop ended although both ends only opened, used and closed streams: %s", p.deadWhy())
+			}
+		default:
+			if errors.Is(perr, context.DeadlineExceeded) && !c.Violated() {
+				c.Inconclusive("end %s did not answer a ping after the transfer and the stall rule does not apply", to.name)
+			} else {
+				c.Count("serve_loops_alive_after_transfer", 1)
+			}
+		}
 	}
 
 	// wire tap: consecutive numbering per direction and sid
